@@ -64,6 +64,9 @@ pub struct Plan {
     pub threads: Vec<Vec<ApiOp>>,
     pub sched: SchedSpec,
     pub env_seed: u64,
+    /// issue the operations directly against the cold tier (no tiered write gate in between)
+    #[serde(default)]
+    pub direct_cold: bool,
 }
 
 #[derive(Clone, Debug, Serialize, Deserialize)]
@@ -82,14 +85,22 @@ pub fn gen_plan(seed: u64, run: u64, _tier: &str) -> Plan {
     cfg.snap_interval = *rng.pick(&[0usize, 1, 2, 1000]);
     let universe = rng.range(1, 4);
     let mut w = 0u64;
+    // a third of the programs go straight to the cold tier: 3 threads (two writers and a snapshot are needed for the
+    // reader-writer-reader cycles of a writer-preferring RwLock), persistence on, sometimes a nearly full index
+    let direct_cold = prog % 3 == 2;
+    if direct_cold {
+        cfg.persist = true;
+        cfg.capacity = *rng.pick(&[6usize, 1000]);
+    }
+    let mix = if direct_cold { "cold" } else { "all" };
     let n_pre = rng.range(0, 6);
-    let pre: Vec<ApiOp> = (0..n_pre).map(|_| gen_op(&mut rng, &cfg, universe, &mut w, "all")).collect();
-    let n_threads = if rng.chance(3, 4) { 2 } else { 3 };
-    let threads: Vec<Vec<ApiOp>> = (0..n_threads).map(|_| (0..rng.range(1, 2)).map(|_| gen_op(&mut rng, &cfg, universe, &mut w, "all")).collect()).collect();
+    let pre: Vec<ApiOp> = (0..n_pre).map(|_| gen_op(&mut rng, &cfg, universe, &mut w, mix)).collect();
+    let n_threads = if direct_cold { rng.range(2, 4) as usize } else if rng.chance(3, 4) { 2 } else { 3 };
+    let threads: Vec<Vec<ApiOp>> = (0..n_threads).map(|_| (0..rng.range(1, 2)).map(|_| gen_op(&mut rng, &cfg, universe, &mut w, mix)).collect()).collect();
     let env_seed = rng.next();
     let mut srng = Rng::for_run(seed, "C08s", run);
     let sched = SchedSpec::gen(&mut srng, 60);
-    Plan { cfg, universe, pre, threads, sched, env_seed }
+    Plan { cfg, universe, pre, threads, sched, env_seed, direct_cold }
 }
 
 pub struct Exec {
@@ -114,7 +125,7 @@ pub fn execute(plan: &Plan, record_sites: bool) -> Exec {
             }
         };
         for op in &p.pre {
-            let _ = exec(&built, op);
+            let _ = if p.direct_cold { crate::tiered::exec_cold(&built, op) } else { exec(&built, op) };
         }
         let cur: Arc<Vec<AtomicUsize>> = Arc::new((0..p.threads.len()).map(|_| AtomicUsize::new(usize::MAX)).collect());
         let mut bodies: Vec<Box<dyn FnOnce() + Send + 'static>> = Vec::new();
@@ -122,10 +133,11 @@ pub fn execute(plan: &Plan, record_sites: bool) -> Exec {
             let b = Arc::clone(&built);
             let ops = ops.clone();
             let cur = Arc::clone(&cur);
+            let direct = p.direct_cold;
             bodies.push(Box::new(move || {
                 for (k, op) in ops.iter().enumerate() {
                     cur[t].store(k, Ordering::SeqCst);
-                    let _ = exec(&b, op);
+                    let _ = if direct { crate::tiered::exec_cold(&b, op) } else { exec(&b, op) };
                 }
                 cur[t].store(usize::MAX - 1, Ordering::SeqCst);
             }));
